@@ -13,11 +13,14 @@
 import Verif.Lemmas.Pools
 import Verif.Lemmas.PoolsRsd
 import Verif.Lemmas.PoolsWriter
+import Verif.Lemmas.PoolsTth
 namespace Verif.Pools
 open Verif
 
-/-- a kind whose operations ignore the pool's memory and whose `New…` ignores the object it got -/
-def Good.ofEq (K : Kind) (ainit : K.Arg → K.St)
+/-- a kind whose operations ignore the pool's memory and whose `New…` ignores the object it got;
+    `Fresh` = what an object at rest in the pool looks like (established by `release`) -/
+def Good.ofEq (K : Kind) (ainit : K.Arg → K.St) (Fresh : K.Obj → Prop)
+    (hzero : ∀ a, Fresh (K.zero a)) (hrel : ∀ s, Fresh (K.release s).1)
     (hinit : ∀ o a, K.init o a = ainit a)
     (hstep : ∀ d s o, (K.step d s o).1 = (K.step (fun _ _ => 0) s o).1 ∧
                       (K.step d s o).2.1 = (K.step (fun _ _ => 0) s o).2.1) : Good K where
@@ -25,19 +28,26 @@ def Good.ofEq (K : Kind) (ainit : K.Arg → K.St)
   ainit := ainit
   astep x o := ((K.step (fun _ _ => 0) x o).1, (K.step (fun _ _ => 0) x o).2.1)
   Ref s x := s = x
-  Fresh _ := True
-  zero_fresh _ := trivial
+  Fresh := Fresh
+  zero_fresh := hzero
   init_ref o a _ := hinit o a
   step_ref d s x o h := by subst h; exact hstep d s o
-  release_fresh _ _ _ := trivial
+  release_fresh s _ _ := hrel s
 
-def goodDR : Good kDR := Good.ofEq kDR (fun src => Rd.newDefault src) (fun _ _ => rfl) (fun _ _ _ => ⟨rfl, rfl⟩)
+/-- DefaultReader is not an object-pool type (`Obj = Unit`): nothing of it rests in a pool -/
+def goodDR : Good kDR :=
+  Good.ofEq kDR (fun src => Rd.newDefault src) (fun _ => True) (fun _ => trivial) (fun _ => trivial)
+    (fun _ _ => rfl) (fun _ _ _ => ⟨rfl, rfl⟩)
 
+/-- a BufferReader at rest holds no reader: `r == nil` (its only field) -/
 def goodBR : Good kBR :=
-  Good.ofEq kBR (fun src => some ⟨some (Rd.newDefault src)⟩) (fun _ _ => rfl) (fun _ _ _ => ⟨rfl, rfl⟩)
+  Good.ofEq kBR (fun src => some ⟨some (Rd.newDefault src)⟩) (fun o => o.r = none) (fun _ => rfl)
+    (fun s => by cases s <;> rfl) (fun _ _ => rfl) (fun _ _ _ => ⟨rfl, rfl⟩)
 
+/-- a BytesSkipDecoder at rest: `n == 0`, `b == nil` (both fields) -/
 def goodBSD : Good kBSD :=
-  Good.ofEq kBSD (fun b => some ⟨0, b⟩) (fun _ _ => rfl) (fun _ _ _ => ⟨rfl, rfl⟩)
+  Good.ofEq kBSD (fun b => some ⟨0, b⟩) (fun o => o.n = 0 ∧ o.b = []) (fun _ => ⟨rfl, rfl⟩)
+    (fun s => by cases s <;> exact ⟨rfl, rfl⟩) (fun _ _ => rfl) (fun _ _ _ => ⟨rfl, rfl⟩)
 
 /-! ### SkipDecoder: a stale `rn` is never read -/
 
@@ -49,8 +59,8 @@ def goodSD : Good kSD where
   ainit src := some ⟨some (Rd.newDefault src), 0⟩
   astep x t := ((kSD.step (fun _ _ => 0) x t).1, (kSD.step (fun _ _ => 0) x t).2.1)
   Ref s x := s.map (·.r) = x.map (·.r)
-  Fresh _ := True
-  zero_fresh _ := trivial
+  Fresh o := o.r = none ∧ o.rn = 0          -- a SkipDecoder at rest is `SkipDecoder{}` (both fields)
+  zero_fresh _ := ⟨rfl, rfl⟩
   init_ref _ _ _ := rfl
   step_ref d s x t h := by
     have : kSD.step d s t = kSD.step (fun _ _ => 0) x t := by
@@ -64,7 +74,7 @@ def goodSD : Good kSD where
           simp only [Option.map_some, Option.some.injEq] at h
           simp only [kSD, liftT, sdNext_congr p q t h]
     rw [this]; exact ⟨rfl, rfl⟩
-  release_fresh _ _ _ := trivial
+  release_fresh s _ _ := by cases s <;> exact ⟨rfl, rfl⟩
 
 /-! ### ReaderSkipDecoder -/
 
@@ -113,11 +123,13 @@ def goodRSD : Good kRSD where
   ainit src := some src
   astep := rsdAStep
   Ref := rsdRef
-  Fresh _ := True
-  zero_fresh _ := trivial
+  -- a ReaderSkipDecoder at rest: `r == nil`, `n == 0`; the field `b` (its private mcache buffer, any
+  -- length, any content) is the ONE thing the code retains on purpose
+  Fresh o := o.r = none ∧ o.n = 0
+  zero_fresh _ := ⟨rfl, rfl⟩
   init_ref _ _ _ := rfl
   step_ref d s x t h := rsd_step_ref d s x t h
-  release_fresh _ _ _ := trivial
+  release_fresh s _ _ := by cases s <;> exact ⟨rfl, rfl⟩
 
 /-! ### systems with instances of several types -/
 
@@ -170,9 +182,9 @@ def Readers : Kind := Kind.sum kDR (Kind.sum kBR (Kind.sum kSD (Kind.sum kBSD kR
 
 def goodReaders : Good Readers := goodDR.sum (goodBR.sum (goodSD.sum (goodBSD.sum goodRSD)))
 
-/-- … and of every kind: the five reading kinds, DefaultWriter and BufferWriter -/
-def All : Kind := Kind.sum Readers (Kind.sum kDW kBW)
+/-- … and of every kind: the five reading kinds, DefaultWriter, BufferWriter and the header codec -/
+def All : Kind := Kind.sum Readers (Kind.sum kDW (Kind.sum kBW kTTH))
 
-def goodAll : Good All := goodReaders.sum (goodDW.sum goodBW)
+def goodAll : Good All := goodReaders.sum (goodDW.sum (goodBW.sum goodTTH))
 
 end Verif.Pools
